@@ -79,7 +79,7 @@ def _create(ctx, vip, rule, epm):
                    for s in K.walk_no_nested(func.node)):
                 creators.append(func)
     ctx.require(len(creators) >= 3, 'create routines of the three managers '
-                                    '(found %d)' % len(creators))
+                                    '(found %d)' % len(creators), rule=rule)
     notes = []
     for func in creators:
         graph = ctx.cfg(func)
@@ -198,7 +198,7 @@ def _release(ctx, vip, rule, epm):
         defs = _local_defs(func)
         unlinks = K.nodes_calling(graph, lambda c: K.callee_text(c) in (
             'os.unlink', 'os.remove'))
-        ctx.require(unlinks, 'os.unlink in %s' % func.qualname)
+        ctx.require(unlinks, 'os.unlink in %s' % func.qualname, rule=rule)
         for node, _call in unlinks:
             def ok_edge(edge):
                 for atom in nz.facts_of_edge(edge):
@@ -283,12 +283,12 @@ def _collect(ctx, vip, rule):
     funcs = [vip.methods.get('garbage_collect'),
              rule.methods.get('garbage_collect'),
              index.module(EP).functions.get('garbage_collect')]
-    ctx.require(all(funcs), 'three garbage collectors')
+    ctx.require(all(funcs), 'three garbage collectors', rule=rule)
     for func in funcs:
         graph = ctx.cfg(func)
         unlinks = K.nodes_calling(graph, lambda c: K.callee_text(c) in (
             'os.unlink', 'os.remove', 'fs.rm_safe'))
-        ctx.require(unlinks, 'unlink in %s' % func.fq)
+        ctx.require(unlinks, 'unlink in %s' % func.fq, rule=rule)
         for node, call in unlinks:
             target = N.txt(call.args[0])
             loop = K.enclosing_for(graph, node)
@@ -367,7 +367,7 @@ def _in_network(ctx, vip):
                            'checked to be in self._cidr' if checked else
                            'neither drawn from nor checked against the '
                            'configured network'))
-    ctx.require(n >= 2, 'call sites of VipMgr._alloc')
+    ctx.require(n >= 2, 'call sites of VipMgr._alloc', rule='C14.4')
 
 
 def _service(ctx):
@@ -378,12 +378,13 @@ def _service(ctx):
     ctx.require(cls is not None, 'NetworkResourceService')
     create = cls.methods.get('on_create_request')
     delete = cls.methods.get('on_delete_request')
-    ctx.require(create and delete, 'on_create_request/on_delete_request')
+    ctx.require(create and delete, 'on_create_request/on_delete_request',
+        rule='C14.5')
     graph = ctx.cfg(create)
     cdefs = _local_defs(create)
     allocs = K.nodes_calling(graph, lambda c: K.is_meth(c, 'alloc') and
                              'vips' in (K.recv_text(c) or ''))
-    ctx.require(allocs, 'vips.alloc in on_create_request')
+    ctx.require(allocs, 'vips.alloc in on_create_request', rule='C14.5')
     rid = create.params()[1]
 
     def key_of(text, defs):
@@ -407,7 +408,7 @@ def _service(ctx):
     did = delete.params()[1]
     frees = K.nodes_calling(dgraph, lambda c: K.is_meth(c, 'free') and
                             'vips' in (K.recv_text(c) or ''))
-    ctx.require(frees, 'vips.free in on_delete_request')
+    ctx.require(frees, 'vips.free in on_delete_request', rule='C14.5')
     for node, call in frees:
         ok = key_of(N.txt(call.args[0]), ddefs) == did and \
             "['ip']" in K.rtxt(delete, call.args[1])
